@@ -307,6 +307,70 @@ func (c *Ctx) nary(op Op, args []*Term) *Term {
 			}
 		}
 	}
+	// subsumption / unit resolution against the literal set (one level deep)
+	dual := OpOr
+	if op == OpOr {
+		dual = OpAnd
+	}
+	negSeen := func(y *Term) bool {
+		if y.Op == OpNot {
+			return seen[y.Args[0].ID]
+		}
+		nt := c.tab[c.key(&Term{Op: OpNot, Sort: SBool, Args: []*Term{y}})]
+		return nt != nil && seen[nt.ID]
+	}
+	changed := false
+	var out []*Term
+	for _, t := range flat {
+		// t = dual(ys): in an And, an Or containing a known-true literal is redundant; known-false literals drop out
+		if t.Op == dual {
+			redundant := false
+			var keep []*Term
+			for _, y := range t.Args {
+				if seen[y.ID] {
+					redundant = true
+					break
+				}
+				if negSeen(y) {
+					continue
+				}
+				keep = append(keep, y)
+			}
+			if redundant {
+				changed = true
+				continue
+			}
+			if len(keep) != len(t.Args) {
+				changed = true
+				out = append(out, c.nary(dual, keep))
+				continue
+			}
+		}
+		// t = not(op(ys)): in an And, not(And(ys)) with all ys known true is false; with some y known false it is redundant
+		if t.Op == OpNot && t.Args[0].Op == op {
+			all := true
+			redundant := false
+			for _, y := range t.Args[0].Args {
+				if !seen[y.ID] {
+					all = false
+				}
+				if negSeen(y) {
+					redundant = true
+				}
+			}
+			if all {
+				return absorbing
+			}
+			if redundant {
+				changed = true
+				continue
+			}
+		}
+		out = append(out, t)
+	}
+	if changed {
+		return c.nary(op, out)
+	}
 	if len(flat) == 0 {
 		return identity
 	}
